@@ -123,6 +123,28 @@ def run_conc(scen, wd, tag, race=False):
     p = subprocess.run([os.path.join(vlib.BIN, name), "-scen", sp, "-out", tp], capture_output=True, text=True,
                        timeout=1800, env=env, errors="replace")
     if p.returncode != 0:
+        # the driver process died. If it was taken down by a panic inside raft-wal on one of the library's own
+        # goroutines (which the driver cannot recover), that is an observation: the scenario in progress panicked.
+        err = p.stderr or ""
+        i = err.find("panic:")
+        j = err.find("fatal error:")
+        k = min(x for x in (i, j, len(err)) if x >= 0)
+        head = err[k:k + 4000]
+        frames = [l for l in head.splitlines() if l and not l.startswith(("\t", " "))]
+        lib_first = next((l for l in frames if "hashicorp/raft-wal" in l or "verif/harness" in l), "")
+        if (i >= 0 or j >= 0) and "hashicorp/raft-wal" in lib_first:
+            lines = open(tp, errors="replace").read().split("\n")
+            good = []
+            for l in lines:
+                try:
+                    json.loads(l)
+                    good.append(l)
+                except Exception:
+                    pass
+            good.append(json.dumps({"ev": "panic", "who": "library goroutine (process died)", "msg": head.splitlines()[0][:200],
+                                    "stack": head[:1500]}))
+            open(tp, "w").write("\n".join(good) + "\n")
+            return tp, 0, ""
         raise Inconclusive("%s exited %d: %s" % (name, p.returncode, (p.stderr or p.stdout)[-3000:]))
     if '"ev":"harness_panic"' in open(tp).read():
         raise Inconclusive("the harness itself panicked: " + [l for l in open(tp) if "harness_panic" in l][0][:1500])
